@@ -66,13 +66,37 @@ Definition continues (r : outcome) : bool := match r with ROk _ | RCrash _ => tr
 Definition dump_expect (e : expect) : val :=
   match e with EList l => VL [VI 0; ofNats l] | ERaise k => VL [VI 1; VI k] | ENoClaim => VL [VI 2] end.
 
-(* one step: (admissible outcome delta [normalize-conforms]) *)
+(* the nodes on which Node.normalize ends up being called when it is called on n (attribute values first, then the
+   children that are not text), or None when the walk does not end.  When no node occurs twice every object that
+   normalize creates stays reachable and the order of creation is the preorder of the result -- which is what the
+   numbering of new objects on the implementation side relies on. *)
+Fixpoint norm_walk (fuel : nat) (h : heap) (n : nat) : option (list nat) :=
+  match fuel with
+  | O => None
+  | S f =>
+      if is_text h n then Some []
+      else (fix go (l : list nat) : option (list nat) :=
+              match l with
+              | [] => Some []
+              | x :: r => match norm_walk f h x, go r with Some a, Some b => Some (a ++ b) | _, _ => None end
+              end) (map snd (attrs h n) ++ filter (fun x => negb (is_text h x)) (children h n))
+           |> (fun o => match o with Some l => Some (n :: l) | None => None end)
+  end
+where "x |> f" := (f x).
+
+Definition norm_walk_ok (h : heap) (n : nat) : bool :=
+  match norm_walk (S (length h)) h n with Some l => nodup_b l | None => false end.
+
+(* one step: (admissible outcome delta [normalize-conforms walk-ok]) *)
 Definition obs_step (h : heap) (o : op) : heap * bool * val :=
   let (h1, r) := step h o in
   (h1, continues r,
    VL ([ofB (adm_op h o); dump_outcome r; VL (delta_from 0 h h1)] ++
        (* M5 checked on the spot: the tree below p is now the normalized tree *)
-       match o with ONormalize p => if adm_op h o then [ofB (normalize_conforms h h1 p)] else [] | _ => [] end)).
+       match o with
+       | ONormalize p => [ofB (if adm_op h o then normalize_conforms h h1 p else true); ofB (norm_walk_ok h p)]
+       | _ => []
+       end)).
 
 Fixpoint obs_run (h : heap) (ops : list op) : heap * bool * list val :=
   match ops with
